@@ -11,37 +11,51 @@ open Rscp Rscp.Model
     it, at any nesting depth, whatever the leaf formatting is. -/
 theorem render_masks (tagS dtS : Nat → String) (leaf : Val → String) (m : Msg) :
     render tagS dtS leaf m = render tagS dtS leaf (maskSecrets m) := by
-  sorry
+  exact render_maskSecrets tagS dtS leaf m
 
 /-- two messages that differ only in values under secret tags render identically -/
 theorem render_secret_independent (tagS dtS : Nat → String) (leaf : Val → String) (m m' : Msg)
     (h : maskSecrets m = maskSecrets m') : render tagS dtS leaf m = render tagS dtS leaf m' := by
-  sorry
+  rw [render_maskSecrets tagS dtS leaf m, render_maskSecrets tagS dtS leaf m', h]
 
 /-- the password and the passphrase tags are secret -/
 theorem secret_tags : isSecret (tagNamedL "RSCP_AUTHENTICATION_PASSWORD") = true ∧
     isSecret (tagNamedL "RSCP_REQ_SET_ENCRYPTION_PASSPHRASE") = true := by
-  sorry
+  constructor <;> decide +kernel
 
 /-- while the authentication frame is built and sent, at every configured level below 99 the logger level is at
     most Info -/
 theorem auth_window_quiet (L : Nat) (h : L < 99) : authWindowLevel L ≤ lvlInfo := by
-  sorry
+  unfold authWindowLevel
+  have h99 : Gen.C.RequiredAuthLogLevel = 99 := rfl
+  rw [h99, if_pos h]
+  exact Nat.min_le_right _ _
 
 /-- hence none of the log calls that run while a frame is written (rendered messages at Debug, plaintext and
     ciphertext dumps at Trace) is emitted for the authentication frame -/
 theorem auth_frame_not_logged (L : Nat) (h : L < 99) :
     ∀ s ∈ writeSites, emitted (authWindowLevel L) s.1 = false := by
-  sorry
+  have hq : authWindowLevel L ≤ lvlInfo := auth_window_quiet L h
+  intro s hs
+  simp only [writeSites, List.mem_cons, List.mem_nil_iff, or_false] at hs
+  simp only [lvlInfo] at hq
+  rcases hs with rfl | rfl | rfl <;> exact decide_eq_false (by simp only [lvlDebug, lvlTrace]; omega)
 
 /-- every log call of the package that shows request data (rendered or dumped) is one of the `Write` sites or a
     `Read` site (which shows replies, never the request), and rendered data goes through `Message.String` -/
 theorem request_data_sites :
     ∀ s ∈ siteClass, (s.2.2 = .plainDump ∨ s.2.2 = .cipherDump ∨ s.2.2 = .rendered) →
       (s.1.startsWith "Write:" ∨ s.1.startsWith "Read:") ∧ lvlDebug ≤ s.2.1 := by
-  sorry
+  decide +kernel
 
 /-- at the documented override the window is not lowered (the statement is about levels below 99 only) -/
 example : authWindowLevel 99 = 99 := by decide
 
 end Rscp.Props.C11
+
+#print axioms Rscp.Props.C11.render_masks
+#print axioms Rscp.Props.C11.render_secret_independent
+#print axioms Rscp.Props.C11.secret_tags
+#print axioms Rscp.Props.C11.auth_window_quiet
+#print axioms Rscp.Props.C11.auth_frame_not_logged
+#print axioms Rscp.Props.C11.request_data_sites
